@@ -109,7 +109,7 @@ Lemma p_primary_S f ts : p_primary tbl (S f) ts =
   match ts with
   | TNum n :: r => Ok (Num n, r)
   | TId x :: TOp LtO :: r1 =>
-      if generic_scan 1 r1 then
+      if generic_scan_b scan_bound 1 r1 then
         match targs_list (S (length r1)) 0 r1 with
         | Some (n, TLP :: r2) =>
             bind (p_args tbl f r2) (fun ar =>
@@ -220,7 +220,7 @@ Proof.
       destruct r as [|t r]; [apply rle_refl|].
       destruct t; try apply rle_refl.
       * destruct o; try apply rle_refl.
-        destruct (generic_scan 1 r); [|apply rle_refl].
+        destruct (generic_scan_b scan_bound 1 r); [|apply rle_refl].
         destruct (targs_list (S (length r)) 0 r) as [[n r2]|]; [|apply rle_refl].
         destruct r2 as [|t2 r2]; [apply rle_refl|]. destruct t2; try apply rle_refl.
         apply rle_bind; [apply IHar; exact Hle|]. intros [args r3]. apply rle_refl.
@@ -243,3 +243,37 @@ Proof.
 Qed.
 
 End Mono.
+
+(* ------------------------------------------------------------------ the bounded look-ahead (fix 98a0163) *)
+(* the bounded scan says "generic call" only where the bound-free scan does; hence every stream that is
+   safe for the bound-free hazard predicate is safe for the code's bounded loop *)
+Lemma scan_b_implies_scan n : forall d ts, generic_scan_b n d ts = true -> generic_scan d ts = true.
+Proof.
+  induction n as [|n IH]; intros d ts H; [discriminate H|].
+  destruct ts as [|t r]; [discriminate H|].
+  cbn [generic_scan_b] in H. cbn [generic_scan].
+  destruct t; try discriminate H; try (apply IH; exact H).
+  - destruct o; try discriminate H; try (apply IH; exact H).
+    destruct d as [|[|d]]; try exact H. apply IH; exact H.
+  - destruct o; try discriminate H; apply IH; exact H.
+Qed.
+
+Lemma scan_false_b n d ts : generic_scan d ts = false -> generic_scan_b n d ts = false.
+Proof.
+  intros H. destruct (generic_scan_b n d ts) eqn:E; [|reflexivity].
+  rewrite (scan_b_implies_scan n d ts E) in H. discriminate H.
+Qed.
+
+(* and within the bound the two scans coincide: the bound only matters for `<` ... `>` more than
+   [n] tokens apart *)
+Lemma scan_b_exact n : forall d ts, (length ts <= n)%nat -> generic_scan_b n d ts = generic_scan d ts.
+Proof.
+  induction n as [|n IH]; intros d ts Hl.
+  - destruct ts; [reflexivity|cbn [length] in Hl; lia].
+  - destruct ts as [|t r]; [reflexivity|]. cbn [length] in Hl.
+    cbn [generic_scan_b generic_scan].
+    destruct t; try reflexivity; try (apply IH; lia).
+    + destruct o; try reflexivity; try (apply IH; lia).
+      destruct d as [|[|d]]; try reflexivity. apply IH; lia.
+    + destruct o; try reflexivity; apply IH; lia.
+Qed.
